@@ -499,6 +499,14 @@ def policy(repo, tier):
                     for nm in n.names:
                         if any(isinstance(x, ast.Name) and x.id == nm and isinstance(x.ctx, ast.Store) for x in _own(fn)):
                             rebinders.append(f"{rel.split('/')[-1]}::{q} rebinds global {nm}")
+    for rel, m in mods.items():
+        for q, fn in m.functions.items():
+            for n in _own(fn):
+                if isinstance(n, ast.Call) and dotted(n.func) in ("globals", "vars", "sys.modules.__getitem__", "importlib.import_module") and \
+                        (dotted(n.func) == "globals" or (dotted(n.func) == "vars" and not n.args)):
+                    rebinders.append(f"{rel.split('/')[-1]}::{q} reaches module state through {dotted(n.func)}()")
+                if isinstance(n, ast.Subscript) and dotted(n.value) == "sys.modules":
+                    rebinders.append(f"{rel.split('/')[-1]}::{q} reaches module state through sys.modules[...]")
     allowed = {"archive_extractor.py::configure_archive_extraction rebinds global _config"}
     extra_g = sorted(set(rebinders) - allowed)
     rb = ground_obligation("C15/package/policy#no-module-level-name-is-rebound-by-extraction-code", not extra_g,
@@ -507,6 +515,16 @@ def policy(repo, tier):
                                               if any("contextmanager" in ast.unparse(d) for d in fn.decorator_list)
                                               and f"{rel.split('/')[-1]}::{q}" in {r.split(" rebinds ")[0] for r in extra_g}]}
     obls.append(rb)
+    # H5c: a mutable default argument that the function mutates is module-level state in disguise
+    md = []
+    for (rel, q), afn in sorted(an.fns.items()):
+        a = afn.node.args
+        pos = a.posonlyargs + a.args
+        pairs = list(zip(pos[len(pos) - len(a.defaults):], a.defaults)) + [(k, d) for k, d in zip(a.kwonlyargs, a.kw_defaults) if d is not None]
+        for (arg, d) in pairs:
+            if O.mutable_expr(d) and arg.arg in afn.mut:
+                md.append(f"{rel.split('/')[-1]}::{q}({arg.arg}={ast.unparse(d)[:20]}) is mutated by the function")
+    G("C15/package/policy#no-mutable-default-argument-is-mutated", not md, "; ".join(md[:5]) or "no function mutates a parameter that has a mutable default", "package")
     # H11: interpreter- / library-wide settings (the state behind os, sys, locale, warnings, logging, csv, mimetypes, PIL, pypdf ...)
     sites = []
     for rel, m in mods.items():
